@@ -271,6 +271,16 @@ def check(idx, run):
               loc(dcls.module, ufunc))
     usig = dcls.methods.get("update_signal") or dcls.methods.get(
         "_update_node")
+    if usig is not None:
+        from sa.obligations import skips_consult
+        res = skips_consult(usig, "_update_data_movement_clauses(")
+        run.check("C13.R2", res is None, f"ACCDataDirective.{usig.name}",
+                  "every change below the directive recomputes the clauses",
+                  f"{usig.name} can return without recomputing the data "
+                  f"clauses ({res}): an edit that changes how an array is "
+                  f"accessed (e.g. its initialisation moved out of the "
+                  f"region) leaves the stale copyout / copyin in place",
+                  loc(dcls.module, usig))
     run.check("C13.R2", usig is not None and
               "_update_data_movement_clauses" in ast.unparse(usig),
               "ACCDataDirective", "clauses follow tree changes",
